@@ -1,12 +1,320 @@
 /-
-  C08 — allocation requests of the Go decoders (`allocs` of `Model/Codec.lean`).
-    * `allocs_honest`: on the encoding of a well-typed value the decoder requests exactly the
-      element counts present in the value (so never more slots than the input carries);
-    * `allocs_unchecked`: on an arbitrary 8-byte input it requests whatever the 8 bytes say.
+  C08 — allocation requests of the Go decoders (`allocs` of `Model/Codec.lean`), for the code
+  with the fixes C08-C/K/P applied and the unread bytes known (`UnmarshalBinary`).
+    * `allocs_bounded`: on EVERY input, every request is at most `max bs.length blockMax`;
+    * `allocs_honest` : on the encoding of a well-typed value the requests are exactly the
+      element counts present in the value (the check never rejects an honest input).
 -/
 import Lattigo.Proofs.Codec
 
 namespace Lattigo.Codec
+
+/-! ### the decoder only moves forward -/
+
+theorem readFlat_suffix {n : Nat} {bs xs r : List Nat} (h : readFlat n bs = some (xs, r)) :
+    r.length ≤ bs.length := by
+  unfold readFlat at h
+  split at h
+  · simp only [Option.some.injEq, Prod.mk.injEq] at h
+    rw [← h.2]; simp
+  · simp at h
+
+theorem decN_suffix (d : List Nat → Option (Val × List Nat))
+    (hd : ∀ s v r, d s = some (v, r) → r.length ≤ s.length) :
+    ∀ n s vs r, decN d n s = some (vs, r) → r.length ≤ s.length := by
+  intro n
+  induction n with
+  | zero => intro s vs r h; simp [decN] at h; rw [← h.2]; exact Nat.le_refl _
+  | succ n ih =>
+    intro s vs r h
+    simp only [decN] at h
+    cases hs : d s with
+    | none => simp [hs] at h
+    | some p =>
+      obtain ⟨v, s'⟩ := p
+      simp only [hs] at h
+      cases hs' : decN d n s' with
+      | none => simp [hs'] at h
+      | some q =>
+        obtain ⟨vs', s''⟩ := q
+        simp only [hs', Option.some.injEq, Prod.mk.injEq] at h
+        have h1 := hd s v s' hs
+        have h2 := ih s' vs' s'' hs'
+        rw [← h.2]; omega
+
+theorem dec_suffix (f : Fmt) : ∀ bs v r, dec f bs = some (v, r) → r.length ≤ bs.length := by
+  unfold dec
+  induction f with
+  | unit => intro bs v r h; simp [decG] at h; rw [← h.2]; exact Nat.le_refl _
+  | uint w =>
+    intro bs v r h
+    simp only [decG] at h
+    cases hr : readFlat w bs with
+    | none => simp [hr] at h
+    | some p => obtain ⟨xs, s'⟩ := p; simp [hr] at h; rw [← h.2]; exact readFlat_suffix hr
+  | raw n =>
+    intro bs v r h
+    simp only [decG] at h
+    cases hr : readFlat n bs with
+    | none => simp [hr] at h
+    | some p => obtain ⟨xs, s'⟩ := p; simp [hr] at h; rw [← h.2]; exact readFlat_suffix hr
+  | hex2 m =>
+    intro bs v r h
+    simp only [decG] at h
+    cases hr : readFlat 2 bs with
+    | none => simp [hr] at h
+    | some p =>
+      obtain ⟨xs, s'⟩ := p
+      have hs := readFlat_suffix hr
+      simp only [hr] at h
+      split at h
+      · rename_i a b s1 heq
+        simp only [Option.some.injEq, Prod.mk.injEq] at heq
+        split at h
+        · simp only [Option.some.injEq, Prod.mk.injEq] at h; rw [← h.2, ← heq.2]; exact hs
+        · simp at h
+      · simp at h
+  | framed pre f post ih =>
+    intro bs v r h
+    simp only [decG] at h
+    cases hr : readFlat pre.length bs with
+    | none => simp [hr] at h
+    | some p =>
+      obtain ⟨xs, s1⟩ := p
+      have h1 := readFlat_suffix hr
+      simp only [hr] at h
+      split at h
+      · cases hf : decG readFlat f s1 with
+        | none => simp [hf] at h
+        | some q =>
+          obtain ⟨v', s2⟩ := q
+          have h2 := ih s1 v' s2 hf
+          simp only [hf] at h
+          cases hr2 : readFlat post.length s2 with
+          | none => simp [hr2] at h
+          | some q2 =>
+            obtain ⟨cs, s3⟩ := q2
+            have h3 := readFlat_suffix hr2
+            simp only [hr2] at h
+            split at h
+            · simp only [Option.some.injEq, Prod.mk.injEq] at h; rw [← h.2]; omega
+            · simp at h
+      · simp at h
+  | pair a b iha ihb =>
+    intro bs v r h
+    simp only [decG] at h
+    cases ha : decG readFlat a bs with
+    | none => simp [ha] at h
+    | some p =>
+      obtain ⟨x, s1⟩ := p
+      have h1 := iha bs x s1 ha
+      simp only [ha] at h
+      cases hb : decG readFlat b s1 with
+      | none => simp [hb] at h
+      | some q =>
+        obtain ⟨y, s2⟩ := q
+        have h2 := ihb s1 y s2 hb
+        simp only [hb, Option.some.injEq, Prod.mk.injEq] at h
+        rw [← h.2]; omega
+  | vec k w f ih =>
+    intro bs v r h
+    simp only [decG] at h
+    cases hr : readFlat w bs with
+    | none => simp [hr] at h
+    | some p =>
+      obtain ⟨xs, s1⟩ := p
+      have h1 := readFlat_suffix hr
+      simp only [hr] at h
+      split at h
+      · simp at h
+      · cases hn : decN (decG readFlat f) (leVal xs) s1 with
+        | none => simp [hn] at h
+        | some q =>
+          obtain ⟨vs, s2⟩ := q
+          have h2 := decN_suffix (decG readFlat f) ih _ _ _ _ hn
+          simp only [hn, Option.some.injEq, Prod.mk.injEq] at h
+          rw [← h.2]; omega
+  | opt kp ru f ih =>
+    intro bs v r h
+    simp only [decG] at h
+    cases hr : readFlat 1 bs with
+    | none => simp [hr] at h
+    | some p =>
+      obtain ⟨xs, s1⟩ := p
+      have h1 := readFlat_suffix hr
+      simp only [hr] at h
+      split at h
+      · rename_i b s1' heq
+        simp only [Option.some.injEq, Prod.mk.injEq] at heq
+        obtain ⟨_, hs1⟩ := heq
+        subst hs1
+        split at h
+        · cases hf : decG readFlat f s1 with
+          | none => simp [hf] at h
+          | some q =>
+            obtain ⟨v', s2⟩ := q
+            have h2 := ih s1 v' s2 hf
+            simp only [hf, Option.some.injEq, Prod.mk.injEq] at h
+            rw [← h.2]; omega
+        · split at h
+          · simp only [Option.some.injEq, Prod.mk.injEq] at h; rw [← h.2]; exact h1
+          · simp at h
+      · simp at h
+  | tailIf kp a p b iha ihb =>
+    intro bs v r h
+    simp only [decG] at h
+    cases ha : decG readFlat a bs with
+    | none => simp [ha] at h
+    | some q =>
+      obtain ⟨x, s1⟩ := q
+      have h1 := iha bs x s1 ha
+      simp only [ha] at h
+      split at h
+      · cases hb : decG readFlat b s1 with
+        | none => simp [hb] at h
+        | some q2 =>
+          obtain ⟨y, s2⟩ := q2
+          have h2 := ihb s1 y s2 hb
+          simp only [hb, Option.some.injEq, Prod.mk.injEq] at h
+          rw [← h.2]; omega
+      · simp only [Option.some.injEq, Prod.mk.injEq] at h; rw [← h.2]; exact h1
+
+/-! ### every request is bounded by the input -/
+
+theorem allocsN_bounded (d : List Nat → Option (Val × List Nat)) (al : List Nat → List Nat)
+    (hd : ∀ s v r, d s = some (v, r) → r.length ≤ s.length)
+    (hal : ∀ s, ∀ a ∈ al s, a ≤ max s.length blockMax) :
+    ∀ n s, ∀ a ∈ allocsN d al n s, a ≤ max s.length blockMax := by
+  intro n
+  induction n with
+  | zero => intro s a ha; simp [allocsN] at ha
+  | succ n ih =>
+    intro s a ha
+    simp only [allocsN, List.mem_append] at ha
+    rcases ha with ha | ha
+    · exact hal s a ha
+    · cases hs : d s with
+      | none => simp [hs] at ha
+      | some p =>
+        obtain ⟨v, s'⟩ := p
+        simp only [hs] at ha
+        have h1 := hd s v s' hs
+        have h2 := ih s' a ha
+        omega
+
+/-- **allocs_bounded.** Whatever the input, no allocation request exceeds the larger of the
+    input length and `blockMax` (2^20). -/
+theorem allocs_bounded (f : Fmt) : ∀ bs, ∀ a ∈ allocs f bs, a ≤ max bs.length blockMax := by
+  induction f with
+  | unit => intro bs a ha; simp [allocs] at ha
+  | uint w => intro bs a ha; simp [allocs] at ha
+  | raw n => intro bs a ha; simp [allocs] at ha
+  | hex2 m => intro bs a ha; simp [allocs] at ha
+  | framed pre f post ih =>
+    intro bs a ha
+    simp only [allocs] at ha
+    cases hr : readFlat pre.length bs with
+    | none => simp [hr] at ha
+    | some p =>
+      obtain ⟨xs, s1⟩ := p
+      have h1 := readFlat_suffix hr
+      simp only [hr] at ha
+      split at ha
+      · have := ih s1 a ha; omega
+      · simp at ha
+  | pair x y ihx ihy =>
+    intro bs a ha
+    simp only [allocs, List.mem_append] at ha
+    rcases ha with ha | ha
+    · exact ihx bs a ha
+    · cases hd : dec x bs with
+      | none => simp [hd] at ha
+      | some p =>
+        obtain ⟨v, s1⟩ := p
+        have h1 := dec_suffix x bs v s1 hd
+        simp only [hd] at ha
+        have := ihy s1 a ha; omega
+  | vec k w f ih =>
+    intro bs a ha
+    simp only [allocs] at ha
+    cases hr : readFlat w bs with
+    | none => simp [hr] at ha
+    | some p =>
+      obtain ⟨xs, s1⟩ := p
+      have h1 := readFlat_suffix hr
+      have hN := allocsN_bounded (dec f) (allocs f) (dec_suffix f) ih (leVal xs) s1
+      simp only [hr] at ha
+      cases k <;> simp only [] at ha
+      · split at ha
+        · simp only [List.mem_cons] at ha
+          rcases ha with ha | ha
+          · omega
+          · have := hN a ha; omega
+        · simp at ha
+      · have := hN a ha; omega
+      · have := hN a ha; omega
+      · split at ha
+        · simp only [List.mem_cons] at ha
+          rcases ha with ha | ha
+          · omega
+          · have := hN a ha; omega
+        · simp at ha
+  | opt kp ru f ih =>
+    intro bs a ha
+    simp only [allocs] at ha
+    cases hr : readFlat 1 bs with
+    | none => simp [hr] at ha
+    | some p =>
+      obtain ⟨xs, s1⟩ := p
+      have h1 := readFlat_suffix hr
+      simp only [hr] at ha
+      split at ha
+      · rename_i b s1' heq
+        simp only [Option.some.injEq, Prod.mk.injEq] at heq
+        obtain ⟨_, hs1⟩ := heq
+        subst hs1
+        split at ha
+        · have := ih s1 a ha; omega
+        · simp at ha
+      · simp at ha
+  | tailIf kp x p y ihx ihy => intro bs a ha; simp only [allocs] at ha; exact ihx bs a ha
+
+/-! ### honest inputs are never rejected -/
+
+theorem minSize_le (f : Fmt) : ∀ v, WT f v → minSize f ≤ (enc f v).length := by
+  induction f with
+  | unit => intro v _; simp [minSize]
+  | uint w => intro v ⟨n, hv, _⟩; subst hv; simp [minSize, enc, leBytes_length]
+  | raw n => intro v ⟨bs, hv, hl⟩; subst hv; simp [minSize, enc, hl]
+  | hex2 m => intro v ⟨n, hv, _⟩; subst hv; simp [minSize, enc]
+  | framed pre f post ih =>
+    intro v h
+    simp only [WT] at h
+    have := ih v h
+    simp only [minSize, enc, List.length_append]; omega
+  | pair a b iha ihb =>
+    intro v ⟨x, y, hv, hx, hy⟩; subst hv
+    have := iha x hx; have := ihb y hy
+    simp only [minSize, enc, List.length_append]; omega
+  | vec k w f ih =>
+    intro v ⟨vs, hv, _, _, _⟩; subst hv
+    simp only [minSize, enc, List.length_append, leBytes_length]; omega
+  | opt kp ru f ih =>
+    intro v h
+    rcases h with hv | ⟨x, hv, _⟩ <;> subst hv <;> simp [minSize, enc]
+  | tailIf kp a p b iha ihb =>
+    intro v ⟨x, y, hv, hx, _⟩; subst hv
+    have := iha x hx
+    simp only [minSize, enc, List.length_append]; omega
+
+theorem length_le_flatten (e : Val → List Nat) (vs : List Val)
+    (h : ∀ x ∈ vs, 1 ≤ (e x).length) : vs.length ≤ ((vs.map e).flatten).length := by
+  induction vs with
+  | nil => simp
+  | cons x xs ih =>
+    have h1 := h x (List.mem_cons_self ..)
+    have h2 := ih (fun y hy => h y (List.mem_cons_of_mem _ hy))
+    simp only [List.map_cons, List.flatten_cons, List.length_cons, List.length_append]; omega
 
 theorem allocsN_flatten (f : Fmt) (vs : List Val)
     (hrt : ∀ x ∈ vs, ∀ r, dec f (enc f x ++ r) = some (x, r))
@@ -23,30 +331,46 @@ theorem allocsN_flatten (f : Fmt) (vs : List Val)
     simp only [List.map_cons, List.flatten_cons, List.length_cons, List.append_assoc, allocsN,
       h1, h2, ih']
 
-/-- **allocs_honest.** On `enc f v ++ rest` the decoder's allocation requests are exactly
-    the element counts of `v`. -/
+/-- **allocs_honest.** On `enc f v ++ rest` the requests are exactly the element counts of
+    the slices and blocks of `v`: the length checks never reject an honest input. -/
 theorem allocs_honest (f : Fmt) :
-    ∀ v rest, WT f v → allocs f (enc f v ++ rest) = lens f v := by
+    PosElems f → ∀ v rest, WT f v → allocs f (enc f v ++ rest) = lens f v := by
   induction f with
-  | unit => intro v rest h; simp [allocs, lens]
-  | uint w => intro v rest ⟨n, hv, _⟩; subst hv; simp [allocs, lens]
-  | raw n => intro v rest ⟨bs, hv, _⟩; subst hv; simp [allocs, lens]
-  | hex2 m => intro v rest ⟨n, hv, _⟩; subst hv; simp [allocs, lens]
+  | unit => intro _ v rest h; simp [allocs, lens]
+  | uint w => intro _ v rest ⟨n, hv, _⟩; subst hv; simp [allocs, lens]
+  | raw n => intro _ v rest ⟨bs, hv, _⟩; subst hv; simp [allocs, lens]
+  | hex2 m => intro _ v rest ⟨n, hv, _⟩; subst hv; simp [allocs, lens]
   | framed pre f post ih =>
-    intro v rest h
+    intro hp v rest h
     simp only [WT] at h
-    simp only [enc, allocs, lens, List.append_assoc, readFlat_append, if_true, ih v _ h]
+    simp only [PosElems] at hp
+    simp only [enc, allocs, lens, List.append_assoc, readFlat_append, if_true, ih hp v _ h]
   | pair a b iha ihb =>
-    intro v rest ⟨x, y, hv, hx, hy⟩; subst hv
-    simp only [enc, allocs, lens, List.append_assoc, iha x _ hx, roundtrip a x _ hx, ihb y _ hy]
-  | vec mg w f ih =>
-    intro v rest ⟨vs, hv, hlen, hall⟩; subst hv
+    intro hp v rest ⟨x, y, hv, hx, hy⟩; subst hv
+    simp only [PosElems] at hp
+    simp only [enc, allocs, lens, List.append_assoc, iha hp.1 x _ hx, roundtrip a x _ hx,
+      ihb hp.2 y _ hy]
+  | vec k w f ih =>
+    intro hp v rest ⟨vs, hv, hlen, hblk, hall⟩; subst hv
+    simp only [PosElems] at hp
+    obtain ⟨hpf, hpos⟩ := hp
+    have hN := allocsN_flatten f vs (fun x hx r => roundtrip f x r (hall x hx))
+      (fun x hx r => ih hpf x r (hall x hx)) rest
     simp only [enc, allocs, lens, List.append_assoc,
-      readFlat_append' w _ _ (leBytes_length w vs.length), leVal_leBytes w _ hlen]
-    rw [allocsN_flatten f vs (fun x hx r => roundtrip f x r (hall x hx))
-      (fun x hx r => ih x r (hall x hx))]
+      readFlat_append' w _ _ (leBytes_length w vs.length), leVal_leBytes w _ hlen, hN]
+    cases k with
+    | slice =>
+      have h1 : vs.length ≤ ((vs.map (enc f)).flatten ++ rest).length := by
+        have := length_le_flatten (enc f) vs (fun x hx => by
+          have := minSize_le f x (hall x hx); have := hpos rfl; omega)
+        simp only [List.length_append]; omega
+      simp only [h1, if_true]
+    | block => simp only [hblk rfl, if_true]
+    | map => rfl
+    | mapKeep => rfl
   | opt kp ru f ih =>
-    intro v rest h
+    intro hp v rest h
+    simp only [PosElems] at hp
     rcases h with hv | ⟨x, hv, hx⟩
     · subst hv
       have hr : readFlat 1 ([0] ++ rest) = some ([0], rest) := readFlat_append' 1 _ rest rfl
@@ -55,35 +379,26 @@ theorem allocs_honest (f : Fmt) :
       have hr : readFlat 1 ([1] ++ (enc f x ++ rest)) = some ([1], enc f x ++ rest) :=
         readFlat_append' 1 _ _ rfl
       have : (1 :: enc f x) ++ rest = [1] ++ (enc f x ++ rest) := rfl
-      simp only [enc, allocs, lens, this, hr, if_true, ih x _ hx]
+      simp only [enc, allocs, lens, this, hr, if_true, ih hp x _ hx]
   | tailIf kp a p b iha ihb =>
-    intro v rest ⟨x, y, hv, hx, hy⟩; subst hv
-    simp only [enc, allocs, lens, List.append_assoc, iha x _ hx]
+    intro hp v rest ⟨x, y, hv, hx, hy⟩; subst hv
+    simp only [PosElems] at hp
+    simp only [enc, allocs, lens, List.append_assoc, iha hp.1 x _ hx]
 
-theorem allocsN_nil (d : List Nat → Option (Val × List Nat)) (hd : d [] = none) (n : Nat) :
-    allocsN d (fun _ => []) n [] = [] := by
-  cases n with
-  | zero => rfl
-  | succ n => simp [allocsN, hd]
+/-! every lattigo format has non-empty slice elements -/
 
-/-- **allocs_unchecked.** An 8-byte input announcing `n` elements makes the decoder of a
-    `Vector[uint64]` request `n` slots — for every `n < 2^64` — although there is not a
-    single element in the input (and the decode then fails for `n > 0`). -/
-theorem allocs_unchecked (n : Nat) (hn : n < 256 ^ 8) :
-    (leBytes 8 n).length = 8 ∧ allocs (vecOf u64) (leBytes 8 n) = [n] ∧
-      (0 < n → dec (vecOf u64) (leBytes 8 n) = none) := by
-  have hr : readFlat 8 (leBytes 8 n) = some (leBytes 8 n, []) := by
-    have := readFlat_append' 8 (leBytes 8 n) [] (leBytes_length 8 n)
-    simpa using this
-  have hfun : allocs u64 = fun _ => [] := by funext s; simp [u64, allocs]
-  have hd : dec u64 [] = none := by simp [dec, u64, decG, readFlat]
-  refine ⟨leBytes_length 8 n, ?_, ?_⟩
-  · simp only [vecOf, allocs, hr, leVal_leBytes 8 n hn, hfun, allocsN_nil (dec u64) hd]
-  · intro hpos
-    obtain ⟨k, hk⟩ : ∃ k, n = k + 1 := ⟨n - 1, by omega⟩
-    have hd' : decG readFlat u64 [] = none := hd
-    simp only [dec, vecOf, decG, hr, leVal_leBytes 8 n hn]
-    rw [hk]
-    simp only [decN, hd']
+theorem posElems_poly : PosElems poly := by simp [poly, matOf, u64, PosElems, minSize]
+theorem posElems_polyQP : PosElems polyQP := by simp [polyQP, posElems_poly, PosElems]
+theorem posElems_vectorQP : PosElems vectorQP := by
+  simp [vectorQP, vecOf, polyQP, poly, matOf, u64, PosElems, minSize]
+theorem posElems_metaData : PosElems metaData := by
+  simp [metaData, ptMeta, ctMeta, scale, PosElems]
+theorem posElems_ciphertext : PosElems ciphertext := by
+  simp [ciphertext, element, optFlag, vecOf, poly, matOf, u64, posElems_metaData, PosElems, minSize]
+theorem posElems_gadget : PosElems gadget := by
+  simp [gadget, matOf, vectorQP, vecOf, polyQP, poly, u64, PosElems, minSize]
+theorem posElems_evalKey : PosElems evalKey := by
+  simp [evalKey, posElems_gadget, PosElems]
+theorem posElems_paramsBlock : PosElems paramsBlock := by simp [paramsBlock, u8, PosElems]
 
 end Lattigo.Codec
